@@ -7,6 +7,6 @@ mkdir -p build
 exec 9>build/repo.lock
 flock -x 9
 git -C /repo apply "$patch" || { echo "patch does not apply"; exit 3; }
-VERIF_REPO_LOCKED=1 ./check.py "$prop" --tier "$tier"; rc=$?
+VERIF_REPO_LOCKED=1 VERIF_SCRATCH_EVIDENCE=1 ./check.py "$prop" --tier "$tier"; rc=$?
 git -C /repo checkout -- .
 echo "exit=$rc"
